@@ -9,6 +9,9 @@ use std::ops::{Deref, DerefMut};
 use std::panic::Location;
 use std::sync::{Condvar, LockResult, PoisonError, TryLockError, TryLockResult};
 
+/// where a lock was constructed and what it guards: the lock's class
+type Site = (&'static Location<'static>, &'static str);
+
 thread_local! {
     static TID: Cell<Option<usize>> = Cell::new(None);
 }
@@ -51,12 +54,14 @@ fn ctrl_lock() -> std::sync::MutexGuard<'static, Option<Ctrl>> {
 }
 
 impl Ctrl {
-    fn lock_name(&mut self, addr: usize, site: &'static Location<'static>) -> String {
+    fn lock_name(&mut self, addr: usize, site: Site) -> String {
         let n = self.names.len();
         let k = *self.names.entry(addr).or_insert(n);
-        let f = site.file();
+        let f = site.0.file();
         let short = f.rsplit("/src/").next().unwrap_or(f);
-        format!("{}:{}#{}", short, site.line(), k)
+        // the guarded type tells apart locks constructed by one macro expansion
+        let ty: String = site.1.rsplit("::").next().unwrap_or(site.1).chars().filter(|c| c.is_ascii_alphanumeric()).take(24).collect();
+        format!("{}:{}:{}#{}", short, site.0.line(), ty, k)
     }
 
     /// hand the baton on: `me` stays first in the order when it can still run
@@ -135,7 +140,7 @@ enum Mode {
 }
 
 /// blocking acquisition in the schedule's lock table; afterwards the real lock is free for this thread
-fn acquire(me: usize, addr: usize, site: &'static Location<'static>, mode: Mode, try_only: bool) -> bool {
+fn acquire(me: usize, addr: usize, site: Site, mode: Mode, try_only: bool) -> bool {
     loop {
         let name = {
             let mut g = ctrl_lock();
@@ -210,7 +215,7 @@ fn acquire(me: usize, addr: usize, site: &'static Location<'static>, mode: Mode,
     }
 }
 
-fn release(me: usize, addr: usize, site: &'static Location<'static>) {
+fn release(me: usize, addr: usize, site: Site) {
     {
         let mut g = ctrl_lock();
         let c = match g.as_mut() {
@@ -341,21 +346,21 @@ pub mod sched {
 // ------------------------------------------------------------------------------------------------ Mutex
 
 pub struct Mutex<T: ?Sized> {
-    site: &'static Location<'static>,
+    site: Site,
     inner: std::sync::Mutex<T>,
 }
 
 pub struct MutexGuard<'a, T: ?Sized + 'a> {
     owner: Option<usize>,
     addr: usize,
-    site: &'static Location<'static>,
+    site: Site,
     inner: Option<std::sync::MutexGuard<'a, T>>,
 }
 
 impl<T> Mutex<T> {
     #[track_caller]
     pub fn new(t: T) -> Mutex<T> {
-        Mutex { site: Location::caller(), inner: std::sync::Mutex::new(t) }
+        Mutex { site: (Location::caller(), std::any::type_name::<T>()), inner: std::sync::Mutex::new(t) }
     }
 }
 
@@ -436,28 +441,28 @@ impl<T: ?Sized> Drop for MutexGuard<'_, T> {
 // ------------------------------------------------------------------------------------------------ RwLock
 
 pub struct RwLock<T: ?Sized> {
-    site: &'static Location<'static>,
+    site: Site,
     inner: std::sync::RwLock<T>,
 }
 
 pub struct RwLockReadGuard<'a, T: ?Sized + 'a> {
     owner: Option<usize>,
     addr: usize,
-    site: &'static Location<'static>,
+    site: Site,
     inner: Option<std::sync::RwLockReadGuard<'a, T>>,
 }
 
 pub struct RwLockWriteGuard<'a, T: ?Sized + 'a> {
     owner: Option<usize>,
     addr: usize,
-    site: &'static Location<'static>,
+    site: Site,
     inner: Option<std::sync::RwLockWriteGuard<'a, T>>,
 }
 
 impl<T> RwLock<T> {
     #[track_caller]
     pub fn new(t: T) -> RwLock<T> {
-        RwLock { site: Location::caller(), inner: std::sync::RwLock::new(t) }
+        RwLock { site: (Location::caller(), std::any::type_name::<T>()), inner: std::sync::RwLock::new(t) }
     }
 }
 
